@@ -458,10 +458,20 @@ def run(ctx):
         if r3["res"] is None:
             dd.append("the same records in another order are not adjusted: %s" % (r3["out"] + r3["err"])[-200:])
         else:
+            # a constrained point without given coordinates takes its datum from approximate coordinates that are derived along a
+            # path which depends on the order of the records: then only the shape is comparable (common translation removed)
+            floating_datum = net["datum"] == "constr" and any(net["status"][pid] == "constr" and (not net["given"][pid] or net["perturb"][pid] > 0) or
+                                                              not net["given"][pid] for pid in net["pts"])
+            shift = {c: 0.0 for c in "xyz"}
+            if floating_datum:
+                for c in "xyz":
+                    ds = [r3["res"]["points"][pid][c] - q[c] for pid, q in ref["points"].items()
+                          if q[c] is not None and r3["res"]["points"].get(pid, {}).get(c) is not None]
+                    shift[c] = sum(ds) / len(ds) if ds else 0.0
             for pid, q in ref["points"].items():
                 for c in "xyz":
                     v2 = r3["res"]["points"].get(pid, {}).get(c)
-                    if q[c] is not None and (v2 is None or abs(v2 - q[c]) > ctol):
+                    if q[c] is not None and (v2 is None or abs(v2 - shift[c] - q[c]) > ctol + (2e-4 if floating_datum else 0)):
                         dd.append("record order changes point %s %s: %.6f vs %.6f" % (pid, c, v2 if v2 is not None else float("nan"), q[c]))
         # project equations dump re-adjusted by the general adjustment class
         try:
